@@ -101,6 +101,7 @@ DEFAULT_PROFILE: dict[str, Any] = {
     "multi_body_multipart": False,  # C03 finding: multipart next to another media type loses its boundary
     "multi_body_array": False,      # C03 finding: isinstance(body, list[...]) in the multi-body dispatch raises TypeError
     "const_float": True,            # C11 finding when False: Literal[1.5] is not a valid type
+    "inline_allof": False,          # inline property schemas that are allOf compositions of a (forward) component reference
     "odd_media_pairs": False,       # binary under text/* or JSON, integer under text/*: accepted by the generator
     "component_unions": False,      # top-level union / array component schemas (forward references inside them)
     "multipart_const": True,        # was a C06 crash (fixed); switch kept for the regression replay
@@ -174,6 +175,12 @@ def schema_ir(draw, prof, comp_names: list[str], depth: int = 0, position: str =
         s = draw(union_ir(prof, comp_names, depth))
     else:
         s = draw(object_ir(prof, comp_names, depth + 1))
+        if prof.get("inline_allof") and comp_names and position == "prop" and draw(st.booleans()):
+            # an inline composition: allOf [$ref to a component (often declared later), {own properties}]
+            s["props"] = [[f"only{w.capitalize()}", {"k": draw(st.sampled_from(["str", "int", "bool"]))}, draw(st.booleans())]
+                          for w in draw(st.lists(st.sampled_from(SECOND_WORDS), min_size=1, max_size=2, unique=True))]
+            s["addl"] = None
+            s["allOf"] = [{"k": "ref", "name": draw(st.sampled_from(comp_names))}]
     if prof["nullable"] and kind not in ("any", "enum", "const", "null") and draw(st.integers(0, 5)) == 0:
         s["nullable"] = True
     if prof["desc"] and draw(st.booleans()):
@@ -263,6 +270,13 @@ def object_ir(draw, prof, comp_names, depth, allow_allof=False, min_props=0):
         if sch["k"] == "const" and isinstance(sch["value"], bool) and not req and not prof["optional_const_bool"]:
             req = True
         props.append([nm, sch, req])
+    if prof.get("inline_allof") and prof["enum"] and prof["null_in_enum"] and any(p[1].get("k") == "object" and p[1].get("allOf") for p in props) \
+            and draw(st.booleans()):
+        # a property whose schema the generator rewrites in place (enum with a null member) *before* one that makes the
+        # whole model be processed a second time (composition of a component declared later): both parses must agree
+        e = draw(enum_ir(prof, allow_null=True))
+        e["null"] = True
+        props.insert(0, ["firstNullable", e, draw(st.booleans())])
     addl: Any = None
     if prof["addl"]:
         a = draw(st.integers(0, 5))
@@ -319,6 +333,37 @@ def components(draw, prof, min_schemas=1):
     for nm, sc in out:
         if sc["k"] in ("union", "array"):
             _fix(sc)
+    # inline compositions (allOf inside a property) must point at an *object* component that does not lead back to the
+    # component holding them (recursive allOf is documented as unsupported)
+    if prof.get("inline_allof"):
+        cmap0 = dict(out)
+        objs0 = [nm for nm, sc in out if sc["k"] == "object"]
+
+        def _fix_inline(sc, owner):
+            for pp in sc.get("props", []):
+                t = pp[1]
+                if t.get("k") == "object" and t.get("allOf"):
+                    ok = [n for n in objs0 if n != owner and not reaches(cmap0, n, owner)]
+                    ref = t["allOf"][0]
+                    if ref.get("name") not in ok:
+                        if ok:
+                            ref["name"] = ok[-1]   # prefer one declared later: the model is then processed twice
+                        else:
+                            t["allOf"] = []
+                    if t["allOf"]:
+                        tgt = cmap0.get(ref["name"], {})
+                        for anc in [tgt] + [cmap0[n] for n in cmap0 if reaches(cmap0, ref["name"], n) and cmap0[n].get("k") == "object"]:
+                            if anc.get("addl") is False or isinstance(anc.get("addl"), dict):
+                                anc["addl"] = None   # JSON Schema would apply it to the inline member's own properties
+                _fix_inline(t, owner)
+            for key in ("items", "addl"):
+                if isinstance(sc.get(key), dict):
+                    _fix_inline(sc[key], owner)
+            for m in sc.get("members", []):
+                _fix_inline(m, owner)
+
+        for nm, sc in out:
+            _fix_inline(sc, nm)
     # allOf composition between object components (acyclic: only to earlier-declared *position* in a shuffled order)
     if prof["allof"]:
         objs = [i for i, (_, s) in enumerate(out) if s["k"] == "object"]
